@@ -64,6 +64,8 @@ def gen_case(base, prop, i, mode='plain'):
         else:
             if not sparse and rng.random() < 0.08:
                 ops = directory_only_prefix(rng, w) + ops
+            elif not sparse and rng.random() < 0.08:
+                ops = vanished_main_prefix(rng, w) + ops
             ops = add_late_registration(rng, w, ops)
         return {'prop': prop, 'world': w, 'ops': ops, 'mix': mix,
                 'mode': mode}
@@ -235,6 +237,42 @@ def directory_only_prefix(rng, w):
             second, {'op': 'check'}]
 
 
+def vanished_main_prefix(rng, w):
+    """Directed prefix: the main file is loaded and then deleted while the
+    policy directory holds no rule; the enforcer is asked in that state;
+    then a directory file appears that overrides the old name of a renamed
+    default, and the very next decision is about the new name."""
+    dirs = [x for x in w['conf']['policy_dirs']
+            if x not in ('gone.d', 'late.d')]
+    if not w['old_names'] or not dirs:
+        return []
+    old = rng.choice(w['old_names'])
+    succ = [x['name'] for x in w['defaults']
+            if x['dep'] and x['dep']['name'] == old]
+    main = 'etc/' + W.main_name(w)
+    for p in list(w['files']):
+        if p != main and not p.startswith('etc/svc'):
+            del w['files'][p]
+    w['dirlinks'] = {}
+    w['files'][main] = {'rules': W.gen_mapping(rng, w, kmax=2),
+                        'style': W.style_for(rng, main)}
+    rel = W.dir_rel(dirs[0])
+    if rel not in w['mkdirs']:
+        w['mkdirs'].append(rel)
+    probes = W.probes_for(w)
+    cand = [i for i, p in enumerate(probes) if p[0] in succ]
+    dt = lambda: rng.choice(W.DTS)        # noqa
+    return [{'op': 'check'},
+            {'op': 'unlink', 'path': main, 'dt': dt()},
+            {'op': 'probe', 'i': rng.randrange(1 << 16)},
+            {'op': 'write', 'path': rel + '/a.yaml', 'dt': dt(),
+             'rules': {old: W.gen_rule_for(rng, w, old)},
+             'style': 'yaml_dq'},
+            {'op': 'probe', 'i': rng.choice(cand) if cand
+             else rng.randrange(1 << 16)},
+            {'op': 'check'}]
+
+
 def add_late_registration(rng, w, ops):
     """When the world marks defaults as late, the long-lived enforcer
     starts without them, loads at least once, and gets them registered at
@@ -372,6 +410,11 @@ def execute(case, backend='sim', record=False):
         def observe(step, idxs):
             """Judge L (and a fresh F) on the probes with these indices."""
             nonlocal main0, main_constrained
+            # the long-lived enforcer is asked in a rotated order, so that
+            # every probe gets to be the FIRST decision after an edit once
+            # in a while (state that is wrong for exactly one call)
+            k0 = (step * 7 + len(ds.content)) % len(idxs)
+            idxs = list(idxs[k0:]) + list(idxs[:k0])
             probes = [ds.probes[i] for i in idxs]
             lt = [ds.decide(L, p) for p in probes]
             loaded[0] = True
